@@ -306,6 +306,64 @@ fn text_case(ctx: &mut Ctx, alg: Algorithm, old: &str, new: &str) {
                 }
             }
         }
+        // TextDiffRemapper::slice_old / slice_new: the substring covering a token range (None out of bounds)
+        {
+            use similar::utils::TextDiffRemapper;
+            let words = c.diff_words(old, new);
+            let rm = TextDiffRemapper::from_text_diff(&words, old, new);
+            for op in words.ops() {
+                let want_o: String = words.old_slices()[op.old_range()].concat();
+                let want_n: String = words.new_slices()[op.new_range()].concat();
+                // (an empty range is not asked for: `slice` computes `range.end - 1`, which underflows for `0..0` -- a
+                // panic in checked builds, `None` in release builds; outside C17, which speaks of the ranges of ops)
+                if !op.old_range().is_empty() && rm.slice_old(op.old_range()) != Some(want_o.as_str()) {
+                    return Err(("C17", format!("slice_old({:?}) = {:?} expected {:?}", op.old_range(), rm.slice_old(op.old_range()), want_o)));
+                }
+                if !op.new_range().is_empty() && rm.slice_new(op.new_range()) != Some(want_n.as_str()) {
+                    return Err(("C17", format!("slice_new({:?}) = {:?} expected {:?}", op.new_range(), rm.slice_new(op.new_range()), want_n)));
+                }
+            }
+            let (no, nn) = (words.old_slices().len(), words.new_slices().len());
+            if rm.slice_old(0..no + 1).is_some() || rm.slice_new(nn + 1..nn + 2).is_some() {
+                return Err(("C17", "slice_old / slice_new past the last token is not None".to_string()));
+            }
+        }
+        // the adapters give access to the wrapped hook (AsRef / AsMut) and changes to their value (value_mut)
+        {
+            use similar::algorithms::DiffHook;
+            let mut rp = Replace::new(Capture::new());
+            rp.equal(0, 0, 1).unwrap();
+            rp.finish().unwrap();
+            let inner: &Capture = rp.as_ref();
+            if inner.ops().len() != 1 {
+                return Err(("C08", "Replace::as_ref does not expose the wrapped hook".to_string()));
+            }
+            let m: &mut Capture = rp.as_mut();
+            m.equal(1, 1, 1).unwrap();
+            if rp.into_inner().ops().len() != 2 {
+                return Err(("C08", "Replace::as_mut does not expose the wrapped hook".to_string()));
+            }
+            let (eo, en) = (vec![1u32], vec![1u32]);
+            let mut cp = Compact::new(Capture::new(), &eo[..], &en[..]);
+            cp.equal(0, 0, 1).unwrap();
+            cp.finish().unwrap();
+            let seen = { let r: &Capture = cp.as_ref(); r.ops().len() };
+            { let r: &mut Capture = cp.as_mut(); r.equal(1, 1, 1).unwrap(); }
+            if seen != 1 || cp.into_inner().ops().len() != 2 {
+                return Err(("C08", "Compact::as_ref / as_mut do not expose the wrapped hook".to_string()));
+            }
+            if let Some(mut ch) = lines.iter_all_changes().next() {
+                let before = ch.value();
+                *ch.value_mut() = "changed";
+                if ch.value() != "changed" || *ch.value_ref() != "changed" || before == "changed" {
+                    return Err(("C13", "Change::value_mut does not change the value".to_string()));
+                }
+            }
+            use similar::DiffableStr;
+            if old.is_empty() != (old.len() == 0) || DiffableStr::is_empty(old.as_bytes()) != old.is_empty() {
+                return Err(("C06", "DiffableStr::is_empty disagrees with len() == 0".to_string()));
+            }
+        }
         // udiff::unified_diff (the function) = the builder with the same settings
         for (radius, hdr) in [(0usize, None), (2, Some(("a.txt", "b.txt")))] {
             let f = similar::udiff::unified_diff(alg, old, new, radius, hdr);
